@@ -412,6 +412,10 @@ func genBackend(t *rapid.T, c *Client, o genOpts) Backend {
 	b.Headers = genHeaderKVs(t, "resp_hdr", 2)
 	b.Trailers = genHeaderKVs(t, "resp_trl", 2)
 	b.TrailerStyle = rapid.SampledFrom([]string{"declared", "prefixed"}).Draw(t, "trailer_style")
+	b.CloseBody = rapid.IntRange(0, 2).Draw(t, "close_body") == 0
+	if b.CloseBody {
+		b.CloseAfterWrites = rapid.IntRange(0, 2).Draw(t, "close_after_writes")
+	}
 	fixTrailerStyle(&b)
 	b.DeclareCL = rapid.IntRange(0, 3).Draw(t, "resp_declare_cl") == 0
 	if b.Kind == "error" || b.Kind == "trailers_only" {
